@@ -9,6 +9,20 @@ from rules import draw as D
 LEVEL = "other"
 
 
+def same_on_path(f, a, b):
+    """a == b as polynomials, or after rewriting both by the equalities among this path's own facts (Gaussian
+    elimination, Facts.eq_elimination): inside `if intersection == area` a count written over `area.size`
+    is the count over the intersection. Only equalities that hold on the path are used, so a wrong count
+    is never accepted."""
+    if a == b:
+        return True
+    try:
+        m, _ = f.eq_elimination()
+        return f.simplify((a - b).subst(m)).const_value() == 0
+    except Exception:
+        return False
+
+
 def run(R):
     R.trusted = ["rustc nightly MIR construction", "AIM interpreter", "C18 (both address commands carry four big-endian bytes; write_command "
                  "sends exactly the command)", "C05 (each InterfacePixelFormat method makes exactly one Interface pixel call)", "C09 (I_init)",
@@ -148,7 +162,7 @@ def task(R, item):
                         reps = [s for s in evs if s.cls == "REP"]
                         if reps:
                             cnt = f.simplify(reps[0].ev.args[2].poly())
-                            R.ob("C08d-pixel-count-equals-window", "%s|repeat-count" % tag, cnt == area,
+                            R.ob("C08d-pixel-count-equals-window", "%s|repeat-count" % tag, same_on_path(f, cnt, area),
                                  "fill_solid repeats the colour %r times, the window holds %r pixels" % (cnt, area),
                                  sample={"entry": nm, "count": repr(cnt), "window_area": repr(area)})
                     if nm == "fill_contiguous" or (nm == "fill_solid" and not [s for s in evs if s.cls == "REP"]):
@@ -165,6 +179,6 @@ def task(R, item):
                                 n, why = C.take_while_admits(R, F, it)
                                 n = f.simplify(n) if n is not None else None
                                 okk = n is not None
-                            R.ob("C08d-pixel-count-equals-window", "%s|take-limit" % tag, okk and n == area,
+                            R.ob("C08d-pixel-count-equals-window", "%s|take-limit" % tag, okk and same_on_path(f, n, area),
                                  "the fill limits the colour stream to %r pixels (iterator %s%s), the window holds %r"
                                  % (n, getattr(it, "name", it), "; " + why if why else "", area), sample={"entry": nm, "take": repr(n), "window_area": repr(area)})
